@@ -4,6 +4,7 @@ from __future__ import annotations
 import datetime as dt
 import enum
 import json
+import re
 import uuid
 from http import HTTPStatus
 
@@ -95,6 +96,10 @@ def cases(draw, tier):
                            "raise": draw(st.booleans()),
                            "variant": draw(st.sampled_from(["sync_detailed", "sync", "asyncio_detailed", "asyncio"]))})
     case = {"ir": ir, "cfg": {"literal_enums": draw(st.booleans())}, "serves": serves}
+    if draw(st.integers(0, 4)) == 0:
+        # every response media type is written under an alias that the configuration maps back (content_type_overrides): the
+        # responses must be decoded exactly as if the real media type had been written
+        case["alias_media_types"] = True
     if draw(st.integers(0, 2)) == 0:
         # the same document with a drawn subset of responses (and path parameters) declared under components and used by $ref
         from . import c20
@@ -182,14 +187,31 @@ def run(case, ctx):
     ir = case["ir"]
     comps = docs.comp_map(ir)
     doc = docs.render(ir)
+    cfg = dict(case.get("cfg") or {})
+    if case.get("alias_media_types"):
+        overrides = {}
+        for item in doc["paths"].values():
+            for m in docs.METHODS:
+                for r in ((item.get(m) or {}).get("responses") or {}).values():
+                    content = r.get("content")
+                    if not content:
+                        continue
+                    for mt in list(content):
+                        # text/* aliases for non-text types and the other way round: the alias must never be read for itself
+                        alias = ("application/x-alias-" if mt.startswith("text/") else "text/x-alias-") + re.sub(r"[^a-z0-9]", "-", mt.lower())
+                        overrides[alias] = mt
+                        content[alias] = content.pop(mt)
+        if overrides:
+            cfg["content_type_overrides"] = overrides
+            ctx.label("aliased_media_types")
     if case.get("by_ref"):
         from . import c20
 
         doc, n_moved = c20.by_reference(doc, ir, case["by_ref"]["bits"], case["by_ref"]["keys"])
         if n_moved:
             ctx.label("declared_under_components")
-    res = sut.generate(doc, cfg=case.get("cfg") or {})
-    literal = bool((case.get("cfg") or {}).get("literal_enums"))
+    res = sut.generate(doc, cfg=cfg)
+    literal = bool(cfg.get("literal_enums"))
     try:
         if res.exc is not None or not res.accepted:
             ctx.skip("generator_rejected_or_crashed")
